@@ -297,6 +297,12 @@ func (b *bufferWriter) expectBody(r *http.Request) bool {
 }
 
 func (b *bufferWriter) Close() error {
+	// The write-once buffer removes its temporary file only through the reader it
+	// hands out; when nobody asked for the reader (discarded or over-limit response,
+	// response without body, hijack) take it here so that the file is removed.
+	if rdr, err := b.buffer.Reader(); err == nil {
+		_ = rdr.Close()
+	}
 	return b.buffer.Close()
 }
 
